@@ -145,11 +145,25 @@ theorem genID_some (cfg : Cfg M K R) (used : String → Bool) (rng : R) (id' : S
     have := (genLoop_some _ _ _ _ _ _ _ hl).2
     rw [← h.1]; exact this
 
+/-- the model's test on the starting id is the code's `(idAbsent || id == "") && genEmptyID` -/
+theorem updKey_gen (cfg : Cfg M K R) (wr : WriteReq M K) (id : String) :
+    (updKey cfg wr id = "" && wr.genEmptyID) = (idAbsent cfg id && wr.genEmptyID) := by
+  unfold updKey idAbsent
+  by_cases hid : id = "" <;> cases wr.genEmptyID <;> simp [hid]
+
+/-- when no id is generated the write works on the intercepted id -/
+theorem updKey_nogen (cfg : Cfg M K R) (wr : WriteReq M K) (id : String)
+    (hg : (idAbsent cfg id && wr.genEmptyID) = false) :
+    updKey cfg wr id = icptId cfg id ∧ (icptId cfg id = "" && wr.genEmptyID) = false := by
+  unfold updKey
+  unfold idAbsent at hg
+  by_cases hid : id = "" <;> cases hgen : wr.genEmptyID <;> simp_all
+
 /-- `Coll.update` once the two reads are known. -/
 theorem coll_update_ok (cfg : Cfg M K R) (h : EqRefl cfg.ops) (s : CState M R) (id : String) (msg : M)
     (wr : WriteReq M K) (old : Option M) (c1 : UpdCtx M R)
     (hv : cfg.ops.validate (fieldUpdater cfg wr) msg = none)
-    (h1 : updGet cfg wr { st := s, id := icptId cfg id, created := none, idCalls := [], createdCalls := 0 }
+    (h1 : updGet cfg wr { st := s, id := updKey cfg wr id, created := none, idCalls := [], createdCalls := 0 }
             = (.ok old, c1))
     (h2 : updGet cfg wr c1 = (.ok old, c1)) :
     Coll.update cfg s id msg wr =
@@ -173,7 +187,7 @@ theorem coll_update_ok (cfg : Cfg M K R) (h : EqRefl cfg.ops) (s : CState M R) (
 theorem coll_update_err (cfg : Cfg M K R) (s : CState M R) (id : String) (msg : M)
     (wr : WriteReq M K) (e : Code) (c1 : UpdCtx M R)
     (hv : cfg.ops.validate (fieldUpdater cfg wr) msg = none)
-    (h1 : updGet cfg wr { st := s, id := icptId cfg id, created := none, idCalls := [], createdCalls := 0 }
+    (h1 : updGet cfg wr { st := s, id := updKey cfg wr id, created := none, idCalls := [], createdCalls := 0 }
             = (.error e, c1)) :
     Coll.update cfg s id msg wr =
       ({ val := none, err := some e, events := [], idCalls := c1.idCalls, createdCalls := c1.createdCalls }, c1.st) := by
@@ -221,14 +235,15 @@ theorem coll_update_eq (cfg : Cfg M K R) (h : EqRefl cfg.ops) (s : CState M R) (
     have hused : (fun k => ((abs s).m k).isSome) = usedIn s.items := rfl
     have habsrng : (abs s).rng = s.rng := rfl
     have habsm : (abs s).m = lookup s.items := rfl
-    by_cases hg : (icptId cfg id = "" && wr.genEmptyID) = true
-    · rcases hgen : genID cfg (usedIn s.items) s.rng with ⟨r, rng'⟩
+    by_cases hg : (idAbsent cfg id && wr.genEmptyID) = true
+    · have hk : (updKey cfg wr id = "" && wr.genEmptyID) = true := by rw [updKey_gen]; exact hg
+      rcases hgen : genID cfg (usedIn s.items) s.rng with ⟨r, rng'⟩
       have hgen' : genID cfg (fun k => (lookup s.items k).isSome) s.rng = (r, rng') := hgen
       cases r with
       | none =>
         rw [coll_update_err cfg s id msg wr .aborted
-          { st := { s with rng := rng' }, id := icptId cfg id, created := none, idCalls := [], createdCalls := 0 } hv
-          (by simp [updGet, hg, hgen])]
+          { st := { s with rng := rng' }, id := updKey cfg wr id, created := none, idCalls := [], createdCalls := 0 } hv
+          (by simp [updGet, hk, hgen])]
         simp [Spec.update, hv, hg, hgen', failOut, abs]
       | some id' =>
         have hl : lookup s.items id' = none := by
@@ -239,7 +254,7 @@ theorem coll_update_eq (cfg : Cfg M K R) (h : EqRefl cfg.ops) (s : CState M R) (
           rw [coll_update_err cfg s id msg wr .notFound
             { st := { s with rng := rng' }, id := id', created := none,
               idCalls := if wr.idCb then [id'] else [], createdCalls := 0 } hv
-            (by simp [updGet, hg, hgen, hl, hcia])]
+            (by simp [updGet, hk, hgen, hl, hcia])]
           simp [Spec.update, hv, hg, hgen', failOut, abs, hl, hcia]
         | true =>
           have key := commit_eq cfg wr { s with rng := rng' } id' (some cfg.ops.zero) (some cfg.ops.zero)
@@ -247,7 +262,7 @@ theorem coll_update_eq (cfg : Cfg M K R) (h : EqRefl cfg.ops) (s : CState M R) (
             { st := { s with rng := rng' }, id := id', created := some cfg.ops.zero,
               idCalls := if wr.idCb then [id'] else [],
               createdCalls := if wr.createdCb then 1 else 0 } hv
-            (by simp [updGet, hg, hgen, hl, hcia])
+            (by simp [updGet, hk, hgen, hl, hcia])
             (by simp [updGet, hl])]
           simp only [Spec.update, hv, hg, abs, hgen', ↓reduceIte, hl, hcia, Bool.not_true, Bool.false_eq_true,
             Option.getD_some]
@@ -256,22 +271,23 @@ theorem coll_update_eq (cfg : Cfg M K R) (h : EqRefl cfg.ops) (s : CState M R) (
           | ok new =>
             have := key new (if wr.idCb then [id'] else []) (if wr.createdCb then 1 else 0)
             simpa [abs] using this
-    · have hg' : (icptId cfg id = "" && wr.genEmptyID) = false := by simpa using hg
+    · have hg' : (idAbsent cfg id && wr.genEmptyID) = false := by simpa using hg
+      obtain ⟨hkey, hk'⟩ := updKey_nogen cfg wr id hg'
       cases hl : lookup s.items (icptId cfg id) with
       | some it =>
         cases hxa : wr.expectAbsent with
         | true =>
           rw [coll_update_err cfg s id msg wr .alreadyExists
             { st := s, id := icptId cfg id, created := none, idCalls := [], createdCalls := 0 } hv
-            (by simp [updGet, hg', hl, hxa])]
+            (by simp [updGet, hkey, hk', hl, hxa])]
           simp [Spec.update, hv, hg', failOut, abs, hl, hxa]
         | false =>
           have key := commit_eq cfg wr s (icptId cfg id) (some it.body) none
           have hget : updGet cfg wr { st := s, id := icptId cfg id, created := none, idCalls := [], createdCalls := 0 }
               = (.ok (some it.body),
                  { st := s, id := icptId cfg id, created := none, idCalls := [], createdCalls := 0 }) := by
-            simp [updGet, hg', hl, hxa]
-          rw [coll_update_ok cfg h s id msg wr (some it.body) _ hv hget hget]
+            simp [updGet, hk', hl, hxa]
+          rw [coll_update_ok cfg h s id msg wr (some it.body) _ hv (by rw [hkey]; exact hget) hget]
           simp only [Spec.update, hv, hg', abs, hl, hxa, Bool.false_eq_true, ↓reduceIte, Option.getD_some]
           cases Spec.newValue cfg.ops wr (fieldUpdater cfg wr) msg (some it.body) it.body with
           | error e => simp [failOut]
@@ -283,14 +299,14 @@ theorem coll_update_eq (cfg : Cfg M K R) (h : EqRefl cfg.ops) (s : CState M R) (
         | false =>
           rw [coll_update_err cfg s id msg wr .notFound
             { st := s, id := icptId cfg id, created := none, idCalls := [], createdCalls := 0 } hv
-            (by simp [updGet, hg', hl, hcia])]
+            (by simp [updGet, hkey, hk', hl, hcia])]
           simp [Spec.update, hv, hg', failOut, abs, hl, hcia]
         | true =>
           have key := commit_eq cfg wr s (icptId cfg id) (some cfg.ops.zero) (some cfg.ops.zero)
           rw [coll_update_ok cfg h s id msg wr (some cfg.ops.zero)
             { st := s, id := icptId cfg id, created := some cfg.ops.zero, idCalls := [],
               createdCalls := if wr.createdCb then 1 else 0 } hv
-            (by simp [updGet, hg', hl, hcia])
+            (by simp [updGet, hkey, hk', hl, hcia])
             (by simp [updGet, hl])]
           simp only [Spec.update, hv, hg', abs, hl, hcia, Bool.not_true, Bool.false_eq_true, ↓reduceIte,
             Option.getD_some]
